@@ -60,7 +60,7 @@ func (it *Interp) mul64(x, y Val) TupleV {
 	h.Sym = symBin("mulhi", x.Sym, y.Sym, 64)
 	l.Sym = symBin("mullo", x.Sym, y.Sym, 64)
 	if it.H.Polys {
-		if pp := PolyMul(it.polyOf(x), it.polyOf(y)); pp != nil {
+		if pp := PolyMul(it.polyOf(x), it.polyOf(y)); pp != nil && !x.PolyMod && !y.PolyMod {
 			h.Poly = it.polyHigh(pp, hi, 64)
 			l.Poly = it.polyLow(pp, hi, 64)
 		}
@@ -73,7 +73,7 @@ func (it *Interp) add64(call *ssa.Call, x, y, cin Val) TupleV {
 	t := it.add64i(call, x, y, cin)
 	if it.H.Polys {
 		px, py, pc := it.polyOf(x), it.polyOf(y), it.polyOf(cin)
-		if px != nil && py != nil && pc != nil {
+		if px != nil && py != nil && pc != nil && !x.PolyMod && !y.PolyMod && !cin.PolyMod {
 			tot := PolyAdd(PolyAdd(px, py, 1), pc, 1)
 			hi := new(big.Int).Add(new(big.Int).Add(x.Hi, y.Hi), cin.Hi)
 			s, c := t[0].(Val), t[1].(Val)
